@@ -241,7 +241,9 @@ func (m *urlModule) createURLSearchParamsPrototype() *goja.Object {
 		u := toUrlSearchParams(m.r, call.This)
 
 		if fn, ok := goja.AssertFunction(call.Argument(0)); ok {
-			for _, pair := range u.searchParams {
+			// the callback may change the list (or replace it, through the URL): every step reads the list as it is now
+			for i := 0; i < len(u.searchParams); i++ {
+				pair := u.searchParams[i]
 				// value, name, searchParams
 				_, err := fn(
 					nil,
